@@ -211,12 +211,12 @@ def keepalive_oracle(res, scn):
 
 
 class NoReasonFamily(ScenarioFamily):
-    """Concurrent callers under a configuration in which no permitted reason for closing
-    a pooled connection can ever arise (no keep-alive limit, no expiry, connection limit
-    never reached, servers keep connections open, every response is read completely, no
-    fault, no cancellation): no connection may be closed before the pool is, and no more
-    connections may be opened to an origin than requests were ever in flight to it at
-    the same time."""
+    """Concurrent callers under a configuration in which the only permitted reason for
+    closing a pooled connection is keep-alive expiry (no keep-alive limit, connection
+    limit never reached, servers keep connections open, every response is read
+    completely, no fault, no cancellation): before the pool is closed a connection may
+    only be closed once it has been idle - no request of any caller on it - for at least
+    keepalive_expiry; with no expiry configured it may not be closed at all."""
 
     chunk = 30
 
@@ -228,7 +228,8 @@ class NoReasonFamily(ScenarioFamily):
         from .common import gen_poolmix
 
         o = {"exec": self.ex, "protos": ["h1", "h1", "h2", "mix"], "max_connections": [None, 100],
-             "max_keepalive": [None], "expiries": [None], "proxies": ["none"] * 4 + ["http", "socks"],
+             "max_keepalive": [None], "expiries": [None, None, 0.05, 0.5, 5.0],
+             "proxies": ["none"] * 4 + ["http", "socks"],
              "min_callers": 2, "max_callers": 5, "max_ops": 4, "p_pool_timeout": 0.0,
              "resp_opts": {"p_conn_close": 0.0, "p_http10": 0.0, "framings": ["cl", "cl", "chunked"],
                            "big": False},
@@ -248,12 +249,27 @@ class NoReasonFamily(ScenarioFamily):
         led = w.ledger
         closed_pool = led.of("pool_closed")
         t_end = closed_pool[0][0] if closed_pool else 10 ** 12
-        first_close = next((e for e in led.of("wire_closing")), None)
         callers_done = next((e for e in led.of("callers_done")), None)
-        if first_close is not None and callers_done is not None and first_close[0] < callers_done[0]:
-            w.violate("C09", "connection-closed-without-permitted-reason:concurrent",
-                      {"wire": first_close[3], "by": first_close[4], "site": first_close[5]})
-            return
+        expiry = scn["pool"].get("keepalive_expiry")
+        # a connection cannot have become idle before the last byte moved on it: the instant
+        # of the last data movement bounds the idle period from above (a necessary
+        # condition for a legitimate expiry, so never a false alarm)
+        moved = {}
+        for e in led.of("wire_open", "s2c", "c2s"):
+            moved.setdefault(e[3], []).append(e[1])
+        for e in led.of("wire_closing"):
+            if callers_done is None or e[0] > callers_done[0]:
+                break
+            wid, now = e[3], e[1]
+            last = max([t for t in moved.get(wid, ()) if t <= now] or [None],
+                       key=lambda x: -1 if x is None else x)
+            ok = expiry is not None and last is not None and now - last >= expiry - 1e-9
+            if not ok:
+                w.violate("C09", "connection-closed-without-permitted-reason:concurrent%s" % (
+                    "" if expiry is None else ":before-expiry"),
+                    {"wire": wid, "by": e[4], "site": e[5], "t": now, "last_data": last,
+                     "expiry": expiry})
+                return
         for key, out in sorted(res.outcomes.items()):
             if "exc" in out:
                 w.violate("C09", "request-failed:%s:concurrent" % out["exc"], {"msg": out.get("msg")})
